@@ -914,14 +914,12 @@ func (vc *FuncVC) evalCall(env *Env, x *ECall) *CVal {
 }
 
 func (vc *FuncVC) typeIDByName(name string) Term {
-	// name is matched against types.TypeString of types seen so far, or registered fresh
-	for key, id := range vc.typeIDs {
-		if key == name || strings.HasSuffix(key, "/"+name) || strings.HasSuffix(key, "."+name) && !strings.Contains(name, ".") {
-			return IntLit(int64(id))
-		}
+	// name must be the types.TypeString of the type (full package path), e.g. "*crypto/rsa.PrivateKey"
+	id, ok := vc.typeIDs[name]
+	if !ok {
+		id = len(vc.typeIDs) + 1
+		vc.typeIDs[name] = id
 	}
-	id := len(vc.typeIDs) + 1
-	vc.typeIDs[name] = id
 	return IntLit(int64(id))
 }
 
